@@ -13,12 +13,14 @@ import SpoxModel.Props.C06
 #print axioms C06M.scaler_sound
 #print axioms C06M.treeEnsembleClassifier_sound_partial
 #print axioms C06M.treeEnsembleClassifier_counterexample
+#print axioms C06M.treeEnsembleClassifier_Y_sound
 #print axioms C06M.treeEnsembleRegressor_sound
 #print axioms C06M.compress_sound
 #print axioms C06M.loop_carried_sound
 #print axioms C06M.loop_body_args_sound
 #print axioms C06M.loop_carried_pinned_counterexample
 #print axioms C06M.loop_scan_sound
+#print axioms C06M.loop_scan_output_sound
 #print axioms C06M.stripDim_sound
 #print axioms C06M.stripUnk_sound
 #print axioms C06M.inline_types_sound
